@@ -210,6 +210,12 @@ PROPS["C11"]["level_text"] += "; the raise-or-exact rule is also run with assert
 PROPS["C16"]["level_text"] += (
     "; program files with a byte order mark, a coding cookie or CRLF line ends, and programs whose text a command-line layer could be tempted to "
     "tidy (blank-only lines inside string literals, tabs, trailing blanks) are part of the pool")
+PROPS["C16"]["level_text"] += (
+    "; main() itself is tied to the source by proof: the test that accepts or rejects the sources given and the sequence of sections main prints, "
+    "with the value each shows, are re-translated from _cli.py on every run (Gen/SrcCli.v) - C16_usage_rule_is_the_source (presence, not "
+    "truthiness, is counted), C16_every_section_shows_the_printed_value (the printed data, the --json section and the --dis-after code object "
+    "all show the same value under every flag combination), C16_sections_are_the_source; the four ways a source becomes a code object are compared "
+    "verbatim with the pinned text (any other text: the translator declines and the differential run alone decides)")
 PROPS["C04"]["level_text"] += (
     "; the four functions of _args.py are tied to the source by proof for ALL inputs (C04_args_functions_are_the_source: Gen/SrcArgs.v, "
     "re-translated on every run, equals Model/Args.v)")
